@@ -343,6 +343,9 @@ func (f *Frame) libCall(name string, fn *ssa.Function, c *ssa.CallCommon, args [
 	if lm, ok := libPure[name]; ok {
 		return []Val{vc.define(fn.Name(), lm.apply(vc, args))}, true
 	}
+	if h, ok := libExt[name]; ok {
+		return h(f, c, args, pos)
+	}
 	if !libSpecial[name] {
 		return nil, false
 	}
